@@ -172,8 +172,8 @@ static void mode_m2(vh::Ctx& ctx) {
   ada::verif::sched_callback.store(sched_point, std::memory_order_relaxed);
   vh::Rng r(ctx.seed, (uint64_t)ctx.worker, 132);
   const int W = ctx.nworkers, me = ctx.worker;
-  // exhaustive: all 2^D binary schedules for two threads (D = 12 quick, 15 thorough); beyond the prefix the threads run free
-  const int D = ctx.thorough ? 15 : 11;
+  // exhaustive: all 2^D binary schedules for two threads (D = 11 quick, 14 thorough); beyond the prefix the threads run free
+  const int D = ctx.thorough ? 14 : 11;
   for (uint32_t bits = 0; bits < (1u << D); bits++) {
     if ((int)(bits % (uint32_t)W) != me) continue;
     std::vector<uint8_t> s(D); for (int i = 0; i < D; i++) s[i] = (bits >> i) & 1;
